@@ -56,7 +56,7 @@ PROPS["C02"] = {
 }
 LEVEL_TEXT["C02"] = {
     "text": "Generated ping-pong programs over every blocking facility built on the suspend/resume path run on the real runtime with mandatory, generated perturbation plans that widen exactly the windows the property names; the oracle is the property's own second sentence: a state-based quiescence detector (all pools: active=pending=staged=0, suspended>0, activation counter unchanged over 6 samples, no external actor) while the harness knows the wake-up was issued, plus round-completion counts. Exploration, because schedules of the real scheduler can only be sampled.",
-    "note": "Window widening is by sleeping/spinning at hook points; interleavings between hook points are reached only through OS preemption (CPU restriction helps). The set_thread_state helper path is confirmed hit in the non-trivial cases by hook counters.",
+    "note": "Window widening is by sleeping/spinning at hook points; interleavings between hook points are reached only through OS preemption (CPU restriction helps). The set_thread_state helper path is confirmed hit in the non-trivial cases by hook counters. A second target blocks 2..6 waiters on one facility and issues the matching wake-ups back to back (groups).",
     "technique": "property-based testing (rapidcheck choice tape, fork-per-case runtime, hook perturbation plans, state-based deadlock oracle)",
 }
 
@@ -183,7 +183,7 @@ PROPS["C07"] = {
 }
 LEVEL_TEXT["C07"] = {
     "text": "The real condition_variable_any (all wait forms incl. stop-token waits) runs on harness-owned virtual threads with the user lock's lock/unlock, the internal cv hook points and every agent operation as schedule decision points. Oracle: every waiter's predicate becomes true at a published generation and every generation is followed by a notification that must reach it, so any all-blocked state is exactly a lost notification; additionally lock ownership on return, predicate/timed/stop-token return values, and 'timeout reported only if the harness clock let the deadline pass'.",
-    "note": "Schedules sampled from generated tapes; pika::condition_variable with pika::mutex needs task ids and is exercised only in the real-runtime programs of C01/C02 (event kinds mutex_cv / timed_cv, channels cv+pika::mutex).",
+    "note": "Schedules sampled from generated tapes; pika::condition_variable with pika::mutex needs task ids and is exercised only in the real-runtime programs of C01/C02 (event kinds mutex_cv / timed_cv, channels cv+pika::mutex). Two further E-vt targets: stop-token waits with several stop sources and never-true predicates, and a permit-counter target with mixed timed/untimed waiters under notify_one that counts notifications delivered against waits returned as notified.",
     "technique": "property-based testing with harness-owned deterministic schedules (virtual threads), deadlock-as-lost-notification oracle",
 }
 
@@ -209,7 +209,7 @@ PROPS["C14"] = {
 }
 LEVEL_TEXT["C14"] = {
     "text": "Model-based property testing of copy/move/assign/swap/destroy histories of stop_source, stop_token and stop_callback against a reference model of stop states (source counts, requested flag, registered callbacks), plus generated deterministic schedules (virtual threads) for the races between request_stop, callback registration and deregistration with exactly-once / not-after-destruction / destructor-waits oracles.",
-    "note": "History part is sequential; race part explores SC interleavings at hook and agent granularity from generated tapes.",
+    "note": "History part is sequential; race part explores SC interleavings at hook and agent granularity from generated tapes. A third target runs on the real runtime: callbacks that suspend the task running request_stop, destroyers on other tasks / OS threads (the 'own thread vs other thread' clause for tasks sharing OS workers).",
     "technique": "model-based property testing (operation histories vs reference model) + harness-owned schedules for the races",
 }
 
@@ -229,7 +229,7 @@ PROPS["C17"] = {
 }
 LEVEL_TEXT["C17"] = {
     "text": "The real containers run on harness-owned virtual threads with decision points inside their CAS loops (hook sites); every value pushed is unique, a ledger checks that no value is returned twice or invented at any time and that all values come out after producers finished and the container was drained; single-threaded cases are compared step by step with a std::deque reference model of each container's stated end order.",
-    "note": "Sequentially consistent interleavings at hook granularity, sampled from generated tapes; a second generated real-thread target runs the same ledger under free-running std::threads so that store-buffer effects of this x86 machine are at least sampled.",
+    "note": "Sequentially consistent interleavings at hook granularity, sampled from generated tapes; a second generated real-thread target runs the same ledger under free-running std::threads so that store-buffer effects of this x86 machine are at least sampled. E-vt schedules are additionally chosen by PCT and, for small cases, enumerated exhaustively under a preemption bound.",
     "technique": "property-based testing with harness-owned deterministic schedules + sequential reference model (differential)",
 }
 
@@ -267,7 +267,7 @@ PROPS["C03"] = {
 }
 LEVEL_TEXT["C03"] = {
     "text": "Generated sender pipelines are built from the real adaptors (edges type-erased so that terms can be generated at run time), started on the real runtime and judged against a reference interpreter that computes the set of admissible completions of the same term: exactly one signal on the terminal receiver (checked again after a grace barrier), the signal is admissible (value payload / same exception id / stopped), tracked payloads and leaf operation states are balanced (none leaked, none used after destruction), a never-signalled receiver is caught by the state-based quiescence detector.",
-    "note": "Schedules for asynchronous leaves are sampled (perturbation, 1..4 workers); un-erased static compositions are not generated.",
+    "note": "Schedules for asynchronous leaves are sampled (perturbation, 1..4 workers); un-erased static compositions are not generated. A second target (E-vt) races the predecessor's completion against consumers being connected/started in split / ensure_started / split_tuple / when_all(_vector) with decision points inside the adaptors (hook sites 120-130); a poisoning quarantine allocator makes touching a destroyed operation state visible.",
     "technique": "property-based testing (generated terms, reference interpreter as oracle, lifetime ledger, fork-per-case real runtime)",
 }
 
